@@ -27,8 +27,10 @@ TRUSTED = [
 ]
 ASSUMPTIONS = [
     'single inheritance (chains, trees): with multiple inheritance a class-level assignment on one base shadows the Parameter another base contributes (plain Python attribute shadowing)',
-    'declared Parameters are plain param.Parameter(default=<str object>, constant=, readonly=) with both flags explicit; values are str objects identified by creation index '
-    '(pairs of equal but non-identical strings in the pool), so no assignment fails validation',
+    'declared Parameters are plain param.Parameter(default=<object>, constant=, readonly=, allow_refs=) with all flags explicit; values are str objects identified by creation index '
+    '(pairs of equal but non-identical strings in the pool) and None (one pool index), so no assignment fails validation',
+    'asynchronous references: only `async def f(): return v` assigned with no event loop running (resolved synchronously inside the assignment) to allow_refs=True parameters; '
+    'a running loop, async generators and Parameter/rx references are outside the model (C08/C10)',
     'the namespace cache coincides with attribute lookup (C13; no add_parameter here); watchers, references, per_instance=False and '
     'no_instance_params classes, Parameter-valued class assignment and edits of `readonly` are outside the model',
     'blocks are observed as one step (the state inside a body is not observed)',
@@ -47,11 +49,13 @@ COVERAGE_TARGETS = [
     'flag:ok:makes-copy', 'flag:ok:has-copy', 'clsFlag:ok', 'getParam:ok:makes-copy', 'getParam:KeyError:makes-copy',
     'block:ok:depth1', 'block:ok:depth2', 'block:RuntimeError:depth1', 'block:RuntimeError:depth2', 'block:TypeError:depth1', 'block:ok:depth3',
     'body:local', 'body:foreign-instance', 'body:class-set', 'body:copy-created-inside', 'assign:equal-not-identical', 'assign:identical',
-    'shape:chain2', 'shape:chain3', 'shape:fork', 'shape:tree',
+    'shape:chain2', 'shape:chain3', 'shape:fork', 'shape:tree', 'default:None-constant',
+    'instSetAsync:TypeError:constant', 'instSetAsync:ok:constant', 'instSetAsync:ok:plain', 'instSetAsync:skip:constant',
 ]
 
-NAMES = ['c', 'r', 'v', 'name']
+NAMES = ['c', 'r', 'v', 'a', 'b', 'name']
 NPOOL = 10
+NONE = NPOOL - 1     # the pool object with this index is None itself
 SHAPES = {'chain2': [[], [0]], 'chain3': [[], [0], [1]], 'fork': [[], [0], [0]], 'tree': [[], [0], [0], [1]]}
 
 
@@ -63,8 +67,12 @@ def _mro(bases):
 
 
 _MRO = {k: _mro(v) for k, v in SHAPES.items()}
-# root declares a constant, a read-only and a plain parameter
-STD = [['c', True, False, 0], ['r', False, True, 2], ['v', False, False, 4]]
+# root declares a constant, a read-only and a plain parameter, and a constant and a plain one with allow_refs=True
+STD = [['c', True, False, 0, False], ['r', False, True, 2, False], ['v', False, False, 4, False],
+       ['a', True, False, 6, True], ['b', False, False, 7, True]]
+# the same with the constants left at a None default
+STDN = [['c', True, False, NONE, False], ['r', False, True, 2, False], ['v', False, False, 4, False],
+        ['a', True, False, NONE, True], ['b', False, False, 7, True]]
 
 
 def _mk(shape, decls, steps):
@@ -85,13 +93,15 @@ def run_impl(case):
     names = case['names']
     # value objects: pool[2j] == pool[2j+1] but they are different objects
     okeep = [''.join(['v', str(k // 2)]) for k in range(case['npool'])]
+    okeep[case['npool'] - 1] = None          # the last pool object is None (a value, not "absent")
+    ABSENT = object()
     oreg = {id(o): k for k, o in enumerate(okeep)}
     if len(oreg) != len(okeep):
         return {'crash': 'pool objects are not distinct'}
     preg, pkeep = {}, []
 
     def oid(o):
-        if o is None:
+        if o is ABSENT:
             return None
         k = oreg.get(id(o))
         if k is None:
@@ -110,8 +120,8 @@ def run_impl(case):
         classes, insts = [], []
         for k, cd in enumerate(case['classes']):
             ns = {}
-            for n, const, ro, d in cd['decl']:
-                ns[n] = param.Parameter(default=okeep[d], constant=const, readonly=ro)
+            for n, const, ro, d, refs in cd['decl']:
+                ns[n] = param.Parameter(default=okeep[d], constant=const, readonly=ro, allow_refs=refs)
                 preg_add(ns[n])
             cls = type(f'K{k}', tuple(classes[b] for b in cd['bases']) or (param.Parameterized,), ns)
             classes.append(cls)
@@ -164,6 +174,33 @@ def run_impl(case):
                         res = 'skip'
                     else:
                         setattr(x, op['n'], getattr(x, op['n']))
+                elif o == 'instSetAsync':
+                    x = inst(op['i'])
+                    desc = type(x).get_param_descriptor(op['n'])[0]
+                    own = x._param__private.params.get(op['n'])
+                    gov = own if own is not None else desc
+                    if gov is None or not gov.allow_refs:
+                        res = 'skip'
+                    else:
+                        result = okeep[op['v']]
+
+                        async def later():
+                            return result
+                        # no running loop: param's async_executor creates a loop and resolves the reference inside
+                        # the assignment; the loop is closed here (param leaves that to the garbage collector)
+                        import asyncio
+                        made, orig = [], asyncio.new_event_loop
+
+                        def recording():
+                            made.append(orig())
+                            return made[-1]
+                        asyncio.new_event_loop = recording
+                        try:
+                            setattr(x, op['n'], later)
+                        finally:
+                            asyncio.new_event_loop = orig
+                            for lp in made:
+                                lp.close()
                 elif o == 'update':
                     inst(op['i']).param.update(**{n: okeep[v] for n, v in op['kvs']})
                 elif o == 'clsSet':
@@ -196,7 +233,7 @@ def run_impl(case):
                     'cls': [[pid(static(c, n)) for n in names] for c in classes],
                     'inst': [{'c': classes.index(type(x)),
                               'rows': [[oid(getattr(x, n)) if static(type(x), n) is not None else None,
-                                        oid(x._param__private.values.get(n)), pid(x._param__private.params.get(n))]
+                                        oid(x._param__private.values.get(n, ABSENT)), pid(x._param__private.params.get(n))]
                                        for n in names]} for x in insts]}
 
         out = {'init': observe('init'), 'steps': []}
@@ -246,13 +283,17 @@ def U(i, *kvs):
     return {'op': 'update', 'i': i, 'kvs': [list(x) for x in kvs]}
 
 
+def A(i, n, v):
+    return {'op': 'instSetAsync', 'i': i, 'n': n, 'v': v}
+
+
 def SS(i, n):
     return {'op': 'instSetSame', 'i': i, 'n': n}
 
 
 def _directed():
     D2 = [STD, []]
-    D3 = [STD, [], [['v', True, False, 6]]]
+    D3 = [STD, [], [['v', True, False, 6, False]]]
     out = []
     # design round, p11
     out.append(('chain2', D2, [N(1), S(0, 'c', 6), SS(0, 'c'), CS(1, 'c', 7), CS(1, 'r', 7), S(0, 'r', 7), U(0, ('c', 8)),
@@ -281,13 +322,21 @@ def _directed():
     # name
     out.append(('chain2', D2, [N(1), CS(1, 'name', 6), N(1), CS(1, 'name', 7), S(0, 'name', 6), S(1, 'name', 6),
                                B(0, S(0, 'name', 8)), S(0, 'name', 9)]))
+    # constants left at a None default are referenced on the instance like any other
+    out.append(('chain2', [STDN, []], [N(1), N(1, ('c', 1)), CS(1, 'c', 6), CS(0, 'a', 3), N(1), S(0, 'c', 6), S(0, 'c', NONE),
+                                        SS(0, 'c'), CS(0, 'c', NONE), S(2, 'c', NONE), U(0, ('v', NONE), ('c', NONE))]))
+    out.append(('chain3', [STDN, [], []], [N(2), CS(0, 'c', 6), CS(1, 'c', 5), CS(2, 'c', 4), S(0, 'c', 4)]))
+    # an asynchronous reference is just another assignment
+    out.append(('chain2', D2, [N(1), A(0, 'a', 3), A(0, 'b', 3), A(0, 'a', 6), A(0, 'c', 1), A(0, 'q', 1), U(0, ('a', 3)),
+                               B(0, A(0, 'a', 5)), A(0, 'a', 5), A(0, 'a', 4), G(0, 'a'), N(1), A(1, 'a', 2), A(7, 'a', 2),
+                               F(1, 'b', True), A(1, 'b', 2), A(1, 'b', 7)]))
     out.append(('fork', [STD, [], []], [N(1), N(2), F(0, 'v', True), CS(0, 'v', 6), S(0, 'v', 6), S(0, 'v', 7), S(1, 'v', 7)]))
     return [_mk(s, d, o) for s, d, o in out]
 
 
 def _alphabet():
     """top-level statements after the prefix [K1(), K1(c=...)] on chain2"""
-    a = [S(0, 'c', 6), S(0, 'c', 0), S(0, 'c', 1), S(0, 'r', 6), S(0, 'v', 6), S(1, 'c', 6), SS(0, 'c'), SS(0, 'r'),
+    a = [A(0, 'a', 3), A(0, 'b', 3), B(0, A(0, 'a', 3)), S(0, 'c', 6), S(0, 'c', 0), S(0, 'c', 1), S(0, 'r', 6), S(0, 'v', 6), S(1, 'c', 6), SS(0, 'c'), SS(0, 'r'),
          U(0, ('c', 6)), U(0, ('v', 6), ('c', 7)), CS(0, 'c', 6), CS(1, 'c', 7), CS(1, 'r', 6), CS(1, 'v', 6),
          G(0, 'c'), G(1, 'c'), F(0, 'c', False), F(0, 'v', True), {'op': 'clsFlag', 'c': 1, 'n': 'c', 'b': False},
          N(1), N(1, ('r', 6)),
@@ -301,8 +350,10 @@ def _local_op(rng, i, depth):
     r = rng.random()
     n = rng.choice(NAMES)
     v = rng.randrange(NPOOL)
-    if r < 0.4:
+    if r < 0.36:
         return S(i, n, v)
+    if r < 0.4:
+        return A(i, rng.choice(['a', 'b']), v)
     if r < 0.48:
         return SS(i, n)
     if r < 0.6:
@@ -342,8 +393,10 @@ def _any_op(rng, ctx, depth=0, in_body=False):
             kw.append(['q', 1])
         ctx['ninst'] += 1
         return {'op': 'newInst', 'c': c, 'kw': kw}
-    if r < 0.36:
+    if r < 0.33:
         return S(i, n, v)
+    if r < 0.36:
+        return A(i, rng.choice(['a', 'a', 'b', 'c']), v)
     if r < 0.42:
         return SS(i, n)
     if r < 0.5:
@@ -364,13 +417,13 @@ def _any_op(rng, ctx, depth=0, in_body=False):
 def _random_case(rng):
     shape = rng.choice(list(SHAPES))
     ncls = len(SHAPES[shape])
-    decls = [[list(d) for d in STD]]
+    decls = [[list(d) for d in (STDN if rng.random() < 0.3 else STD)]]
     for k in range(1, ncls):
         d = []
         if rng.random() < 0.3:
-            d.append([rng.choice(['c', 'v']), rng.random() < 0.5, False, rng.randrange(NPOOL)])
+            d.append([rng.choice(['c', 'v', 'a']), rng.random() < 0.5, False, rng.randrange(NPOOL), rng.random() < 0.5])
         if rng.random() < 0.1:
-            d.append(['r', False, rng.random() < 0.7, rng.randrange(NPOOL)])
+            d.append(['r', False, rng.random() < 0.7, rng.randrange(NPOOL), False])
         decls.append(d)
     ctx = {'ncls': ncls, 'ninst': 0}
     ops = [_any_op(rng, ctx) for _ in range(rng.randint(2, 22))]
@@ -412,11 +465,13 @@ def _walk(ops, depth=0, owner=None, owners=()):
 
 def _touches(op):
     """instance index an elementary statement works on"""
-    return op.get('i') if op['op'] in ('instSet', 'instSetSame', 'update', 'getParam', 'flag', 'block') else None
+    return op.get('i') if op['op'] in ('instSet', 'instSetAsync', 'instSetSame', 'update', 'getParam', 'flag', 'block') else None
 
 
 def tags(case, impl):
     t = ['shape:' + case['shape'], f'len={min(len(case["steps"]), 10)}' + ('+' if len(case['steps']) >= 10 else '')]
+    if any(d[0] in ('c', 'a') and d[1] and d[3] == case['npool'] - 1 for cd in case['classes'] for d in cd['decl']):
+        t.append('default:None-constant')
     for op, depth, owner, _ in _walk(case['steps']):
         if depth:
             if op['op'] == 'clsSet':
@@ -434,7 +489,7 @@ def tags(case, impl):
                 t.append('body:copy-created-inside')
             if op['op'] == 'instSet' and op['i'] < len(prev['inst']) and op['n'] in case['names']:
                 h = prev['inst'][op['i']]['rows'][case['names'].index(op['n'])][0]
-                if h is not None and op['v'] != h and op['v'] // 2 == h // 2 and h < case['npool']:
+                if h is not None and op['v'] != h and op['v'] // 2 == h // 2 and max(h, op['v']) < case['npool'] - 1:
                     t.append('assign:equal-not-identical')
                 if h == op['v']:
                     t.append('assign:identical')
@@ -529,6 +584,13 @@ def classify(case, impl, fail):
             return 'name-not-referenced-on-instance-when-class-name-overridden'
         created_in_block = [o for o, d, _, _ in _walk(case['steps'][:k]) if d and o['op'] == 'newInst']
         late_flag = [o for o, _, _, _ in _walk(case['steps'][:k]) if o['op'] in ('flag', 'clsFlag') and o['n'] == name and o['b']]
+        # an instance born (by a top-level constructor call) under a class-level constant Parameter must hold a reference
+        obs = [impl['init']] + impl['steps']
+        for j, st in enumerate(case['steps'][:k]):
+            if st['op'] == 'newInst' and len(obs[j]['inst']) == idx and len(obs[j + 1]['inst']) == idx + 1:
+                cpid = obs[j]['cls'][st['c']][col]
+                if cpid is not None and obs[j]['params'][cpid][0]:
+                    return None
         if late_flag:
             return 'constant-flag-set-later-value-not-referenced-on-instance'
         if created_in_block:
